@@ -68,7 +68,6 @@ inductive Req where
   | u32del (pairs : List (Key × List Nat))
   | size (k : Key)
   | hasVal (k : Key) (v : Nat)
-  | close            -- idle eviction or graceful stop, followed by nothing (next request re-summons)
   deriving Repr, Inhabited
 
 inductive Resp where
@@ -101,6 +100,10 @@ def wire (r : Rec) : Rec :=
 /-- request value as the handler sees it after protobuf decoding -/
 def normVal : Val → Val
   | .u32s [] => .none
+  | v => v
+
+/-- a stored slice is a set: first-seen order, no duplicates -/
+def dedupVal : Val → Val
   | .u32s l => .u32s (pushU32 [] l)
   | v => v
 
@@ -160,7 +163,7 @@ abbrev Store := List (Key × Rec)
 
 def applyItem (old : Option Rec) (it : Item) : Rec :=
   let b := old.getD {}
-  { val := normVal it.val,
+  { val := dedupVal (normVal it.val),
     m := { ca := if it.ca > 0 then it.ca else b.m.ca,
            cb := if it.cb ≠ "" then it.cb else b.m.cb,
            ua := if it.ua > 0 then it.ua else b.m.ua,
@@ -261,7 +264,7 @@ def delAll : Store → List Key → Store × List St
       let (st', out) := delAll st rest
       (st', .nf :: out)
 
-def step (ar : Arith) (kind : Kind) (now : Int) (st : Store) : Req → Store × Resp
+def step (ar : Arith) (now : Int) (st : Store) : Req → Store × Resp
   | .set create over items =>
     if items.isEmpty then (st, .err "InvalidArgument")
     else if !create && !over then (st, .setErr "CanNotBeExecuted" false)
@@ -312,10 +315,13 @@ def step (ar : Arith) (kind : Kind) (now : Int) (st : Store) : Req → Store × 
       match r.val with
       | .u32s l => (st, .flag (l.contains v))
       | _ => (st, .flag false)
-  | .close =>
-    match kind with
-    | .mem => ([], .ok)
-    | _ => (st, .ok)
+
+/-- idle eviction / graceful stop followed by a re-summon: an in-memory swamp forgets
+    everything, a persistent one nothing (C05) -/
+def close (kind : Kind) (st : Store) : Store :=
+  match kind with
+  | .mem => []
+  | _ => st
 
 end Spec
 
@@ -454,7 +460,7 @@ def applyItem (cfg : Cfg) (t : MRec) (it : Item) : MRec × Bool × List Tag :=
   let tagV : List Tag :=
     (match v with
      | .none => if sr.c.vis != .none then [Tag.voidNoClear] else []
-     | .u32s l => if sr.c.vis != .u32s l then (if t.c.vis matches .u32s _ then [Tag.sliceMerge] else [Tag.hiddenSlice]) else []
+     | .u32s l => if sr.c.vis != .u32s (pushU32 [] l) then (if t.c.vis matches .u32s _ then [Tag.sliceMerge] else [Tag.hiddenSlice]) else []
      | _ => [])
   let sCa := validTs cfg it.ca
   let sUa := validTs cfg it.ua
@@ -500,13 +506,13 @@ def save (cfg : Cfg) (i : Inst) (k : Key) (t : MRec) (fresh : Bool) : Inst × St
     ({ i with recs := AL.insert k cleared i.recs, inflight := AL.erase k i.inflight,
               waiting := if i.waiting.contains k then i.waiting else i.waiting ++ [k],
               expIdx := if t.m.exp ≠ 0 then idxAdd k i.expIdx else i.expIdx }, .new, [])
-  | some _ =>
+  | some told =>
     if t.changed then
       let idx := if t.expChanged then (if t.m.exp ≠ 0 then idxAdd k (idxRemove k i.expIdx) else idxRemove k i.expIdx) else i.expIdx
       ({ i with recs := AL.insert k cleared i.recs,
                 waiting := if i.waiting.contains k then i.waiting else i.waiting ++ [k],
                 expIdx := idx }, .upd, if fresh then [] else [Tag.stickyFlags])
-    else ({ i with recs := AL.insert k t i.recs }, .same, [])
+    else ({ i with recs := if t = told then i.recs else AL.insert k t i.recs }, .same, [])
 
 /-- `deleteHandler` -/
 def deleteRec (i : Inst) (k : Key) : Inst :=
@@ -787,13 +793,16 @@ def stepCore (cfg : Cfg) (ar : Arith) (now : Int) (s : State) (req : Req) : Out 
       match t.c.slice with
       | none => ⟨s', .flag false, tg⟩
       | some l => ⟨s', .flag (l.contains v), tg ++ (if (match t.c.vis with | .u32s _ => true | _ => false) then [] else [Tag.hiddenSlice])⟩
-  | .close =>
-    match s.live with
-    | none => ⟨s, .ok, []⟩
-    | some i =>
-      match s.kind with
-      | .mem => ⟨{ s with live := none }, .ok, []⟩
-      | _ => ⟨{ s with live := none, file := flush cfg i s.file }, .ok, closeTags cfg i⟩
+
+/-- `Close` (idle eviction or graceful stop): flush the write buffer, drop the instance -/
+def closeStep (cfg : Cfg) (s : State) : State × List Tag :=
+  if s.dead then (s, []) else
+  match s.live with
+  | none => (s, [])
+  | some i =>
+    match s.kind with
+    | .mem => ({ s with live := none }, [])
+    | _ => ({ s with live := none, file := flush cfg i s.file }, closeTags cfg i)
 
 /-- the Spec-level view of a model state -/
 def abs (s : State) : Spec.Store :=
